@@ -295,6 +295,35 @@ def run(ck, F, tier):
         unw = [c for c in walk(b.value) if c.get("k") == "mcall" and c["m"] in ("unwrap", "expect")]
         ck.inst("H3", "propagation:" + fn.rsplit("::", 2)[-2] + "::" + fn.rsplit("::", 1)[-1], wrapped == len(steps) and len(steps) >= 1 and not unw, b.span,
                 "%d fallible steps, %d with their failure propagated (`?`, explicit Err arm, or part of the returned value), %d unwrap/expect" % (len(steps), wrapped, len(unw)))
+    # the stored puncturer: none for the empty C string, Puncturer::new(parsed pattern) for any other - evaluated on the two cases
+    from ..transformer import Grid
+    from ..symx import NotEvaluable
+    for fn, names in (("c_api::decoder::Decoder::new", ["alist", "implementation", "puncturing"]), ("c_api::encoder::Encoder::new", ["alist", "puncturing"])):
+        b = F.body(fn)
+        tq_ = Tracer(F, "NONE", mode="int", inline=lambda p: F.private_helper(p, "c_api::", keep=r"c_api::(decoder::Decoder|encoder::Encoder)::\w+|c_api::c_to_string"))
+        envq = {}
+        for p_, nm_ in zip(b.params, names):
+            tq_.bind(p_, var(nm_), envq)
+        try:
+            rq = tq_.eval(b.value, envq)
+        except Unsupported as e:
+            raise AnalysisError("%s: unreadable shape: %s" % (fn, e))
+        stv = rq[2][0] if isinstance(rq, tuple) and len(rq) == 3 and rq[:2] == ("ctor", "Ok") and rq[2] else None
+        pv_ = stv[2].get("puncturer") if isinstance(stv, tuple) and stv and stv[0] == "struct" else None
+        okq, whyq = pv_ is not None, "the constructed value has no `puncturer` field"
+        if okq:
+            try:
+                got = {}
+                for empty in (True, False):
+                    g = Grid({"puncturing": "" if empty else "1,0", "alist": "ASTR", "implementation": "ISTR"},
+                             {"is_empty": lambda x_: x_ == "", "len": lambda x_: len(x_),
+                              "parse_puncturing_pattern": lambda x_: ("Ok", ("PAT", x_)), "new": lambda x_: ("PUNCT", x_)})
+                    got[empty] = g.value(pv_)
+                okq = got == {True: "None", False: ("Some", ("PUNCT", ("PAT", "1,0")))}
+                whyq = "puncturer = None for the empty pattern string, Some(Puncturer::new(parse(pattern))) otherwise: %r" % (got,)
+            except (NotEvaluable, TypeError) as ex:
+                okq, whyq = False, "puncturer value not evaluable: %s" % ex
+        ck.inst("H3", "puncturer-presence:" + fn.rsplit("::", 2)[-2], okq, b.span, whyq[:400])
     rev = {"assert:not": (1, "Puncturer::new asserts a non-empty pattern: parse_puncturing_pattern returns Ok only after pushing one element per "
                                "comma-separated item and str::split always yields at least one item")}
     NOI = r"(?!c_api::|simulation::puncturing::Puncturer::new|cli::ber::parse_puncturing_pattern).*"
